@@ -137,6 +137,12 @@ func (c *supervisionContext) applyDecision(ctx *Context, targets vivid.ActorRefs
 	default:
 		// 升级（IsEscalate），以及预料之外的决策值：按 vivid.SupervisionDecision 的约定作为升级处理，
 		// 否则目标已被挂起却无人再处理，将永久停留在暂停状态。
+		if ctx.parent == nil {
+			// 根 Actor 之上已无监督者：升级链到此为止，按顶层默认决策（停止）处理目标。
+			// 否则监督上下文会被投递回根 Actor 自身（nil 接收者回落到根邮箱），根 Actor 将挂起自己并无休止地重复同一决策。
+			c.applyDecision(ctx, targets, vivid.SupervisionDecisionStop, reason)
+			return
+		}
 		// 升级后视为自身的故障，但是携带了下级故障信息
 		// 挂起当前 Actor 的消息处理并且向父级 Actor 发送监督上下文以触发父级 Actor 的监督策略
 		ctx.mailbox.Pause()
